@@ -96,6 +96,13 @@ CLAIMED["C03"] = (
     "DESIGN.md §2 E-TRIANGLE/E-NUMFMT, §3 C03",
 )
 
+CLAIMED["C01"] = (
+    "three-way comparison of (a) the element tree with value sources extracted from the XML builders by abstract interpretation with call-site parameter substitution, (b) the lookups and their provenance into constructor keywords extracted from the XML reader factories (reaching definitions, helper-call substitution, control dependence), and (c) the parsed XSD; plus static evaluation of the attribute-name mapping functions",
+    "Decides on about 2000 emitted leaves and 19 builder/factory/class pairs: everything written is looked up by the reader as the same kind at the same place; every attribute the reader takes from the file and the schema has a place for is written; per pair each constructor keyword is fed from leaves the writer fills from that same attribute (no crossed or dropped fields); writer and reader name maps are identical / mutually inverse on all 43 state fields; direction/boolean/driving-direction encodings are mutually inverse and exhaustive; ordered collections are written and read in stored order and x,y map to indices 0,1. Numeric closeness (10^-d), which state class the reader matches, and value-dependent behaviour are not decided.",
+    "Trusts the frozen pair table (19 rows) and exception table (9 rows with reasons), lxml/ElementTree semantics of find/findall/get, and annotations used to tell nested objects from leaf values.",
+    "DESIGN.md §2 E-TRIANGLE, §3 C01",
+)
+
 NOT_APPLICABLE = {
     "C17": "modular arithmetic over runtime integers (%, cumsum, argmax): no sound static argument in reach; the only structural part (memo freshness) is decided under C11, and 'TrafficLight delegates to its cycle' is sufficient but not necessary, so a rule on it would fire on behaviour-preserving edits",
 }
